@@ -34,4 +34,11 @@ def writeAll (l : List (Key × Val)) (s : Store Val) : Store Val := l.foldl (fun
 
 def flatten (ch : Chain E) : Store Val := writeAll (records ch) []
 
+/-- the well-formedness `Proofs/FlatChain.lean` asks of a typed state, as a check the driver runs on every state it flattens:
+no address twice in the ledger, the registry or the map of contract stores; every contract store strictly sorted; contract
+addresses short enough for the 2-byte length prefix -/
+def wfCheck (ch : Chain E) : Bool :=
+  decide ((ch.bank.map (·.1)).Nodup) && decide ((ch.contracts.map (·.1)).Nodup) && decide ((ch.cstore.map (·.1)).Nodup) &&
+  ch.cstore.all fun p => decide (p.2.Pairwise fun a b => a.1 < b.1) && decide ((utf8 p.1).length ≤ 65521)
+
 end CwMt.Flat
